@@ -14,7 +14,7 @@ RULE = ('a universe of ~110 hand-enumerated values (None, bools, ints, floats, n
         'evaluating eq(x,y) and eq(y,x) (the diagonal twice: same object, and an independently built copy holding fresh NaN objects); '
         'random nestings to depth 3 plus representation-changing variants (1 / 1.0 / np.int64(1), dict insertion order, dtype, NaN object) '
         'and single-point mutants (one cell, container kind at depth, shape, index label, dict class), plus same-size dicts with different key sets whose non-shared keys map to None (also nested / subclassed / with shared keys), give further pairs, triples '
-        '(x,y,z: eq(x,y), eq(y,z), eq(x,z)) and in_(x, seq) cases. Compared inside Coq with M_eq.eq_model / in_model (outcome Raised is a value). '
+        '(x,y,z: eq(x,y), eq(y,z), eq(x,z)), in_(x, seq) cases (seq a list / tuple / object array) and veq(x, y) on same-shape arrays; 7 values of size 120..300; np.int32 / np.float32 scalars, sub-second, pre-1970 and year-2200 timestamps; positional and keyword spelling. Compared inside Coq with M_eq.eq_model / in_model (outcome Raised is a value). '
         'Oracle on the real outputs: never raises, returns bool, symmetric, transitive on the triple, in_ = any(eq), and equal to the '
         'structural rule read off the property text wherever that rule is determined (undetermined only for dtype-only differences). '
         'non-trivial = at least one operand is a container, or a triple / in_ case; distinct by the JSON of the operands')
@@ -24,14 +24,18 @@ EXPLANATION = ('theorems C14_* (coq/props/C14.v) hold for every value of the ind
                'on NaN-free plain values; the correspondence ties eq_model to the real eq on every pair of the universe and on thousands of random nestings')
 TRUSTED = ['modelled, not verified: numpy/pandas element access (np.vectorize over object-converted cells, Index == Index), Python == on scalars '
            '(mirrored by M_eq.scalar_eqb), the harness builder that turns a JSON value description into the Python object and into the Coq literal']
-ASSUMPTIONS = ['dict keys are ASCII strings', 'pandas index / column labels are NaN-free scalars', 'finite numbers are half-integers below 2^50',
+ASSUMPTIONS = ['dict keys are ASCII strings (values may be any str)', 'pandas index / column labels are NaN-free scalars', 'finite numbers are half-integers below 2^50',
                'pandas extension arrays, datetime64 arrays, sets and functools.partial are outside the universe']
 EXHAUSTIVE = {'quick': False, 'thorough': False}
 
-SCALARS = ('none', 'bool', 'int', 'float', 'npint', 'npfloat', 'npbool', 'nan', 'npnan', 'inf', 'str', 'npstr', 'dt', 'ts', 'dt64')
+SCALARS = ('none', 'bool', 'int', 'float', 'npint', 'npint32', 'npfloat', 'npf32', 'npbool', 'nan', 'npnan', 'npf32nan', 'inf', 'str', 'npstr', 'dt', 'ts', 'dt64')
+NANS = ('nan', 'npnan', 'npf32nan')
 CLS = {'dict': 0, 'Dict': 1, 'FunnyDict': 2, 'OrderedDict': 3}
 D1 = 737425 * 86400000000      # 2020-01-01 00:00 on the model axis (microseconds from ordinal 0)
 D2 = D1 + 86400000000 + 3600000000
+D3 = D1 + 45296123456                  # 12:34:56.123456 (sub-second)
+DOLD = 715647 * 86400000000 + 1       # 1960-05-17 00:00:00.000001 (before the epoch)
+DFUT = 803169 * 86400000000           # 2200-01-01 (future)
 
 # ------------------------------------------------------------------ value descriptions
 def N_(*a): return list(a)
@@ -70,6 +74,9 @@ def pyrepr(s):
     if t == 'int': return repr(s[1])
     if t == 'float': return repr(s[1] / 2)
     if t == 'npint': return 'np.int64(%d)' % s[1]
+    if t == 'npint32': return 'np.int32(%d)' % s[1]
+    if t == 'npf32': return 'np.float32(%r)' % (s[1] / 2)
+    if t == 'npf32nan': return "np.float32('nan')"
     if t == 'npfloat': return 'np.float64(%r)' % (s[1] / 2)
     if t == 'npbool': return 'np.bool_(%r)' % bool(s[1])
     if t == 'nan': return "float('nan')"
@@ -106,9 +113,9 @@ def coq_val(s, ids):
     t = s[0]
     if t == 'none': return 'VNone'
     if t in ('bool', 'npbool'): return '(VBool %s)' % ('true' if s[1] else 'false')
-    if t in ('int', 'npint'): return '(VNum false (%d))' % (2 * s[1])
-    if t in ('float', 'npfloat'): return '(VNum true (%d))' % s[1]
-    if t in ('nan', 'npnan'): return '(VNaN %d%%N)' % ids.next()
+    if t in ('int', 'npint', 'npint32'): return '(VNum false (%d))' % (2 * s[1])
+    if t in ('float', 'npfloat', 'npf32'): return '(VNum true (%d))' % s[1]
+    if t in NANS: return '(VNaN %d%%N)' % ids.next()
     if t == 'inf': return '(VInf %s)' % ('true' if s[1] else 'false')
     if t in ('str', 'npstr'): return '(VStr %s)' % coq_str(s[1])
     if t in ('dt', 'ts', 'dt64'): return '(VDate (%d))' % s[1]
@@ -123,13 +130,14 @@ def coq_val(s, ids):
     raise ValueError(s)
 
 def coq_runner(case):
-    return {'pair': 'run_eq_pair', 'triple': 'run_eq_triple', 'in': 'run_in'}[case['kind']]
+    return {'pair': 'run_eq_pair', 'triple': 'run_eq_triple', 'in': 'run_in', 'veq': 'run_veq'}[case['kind']]
 
 def coq_case(case):
     ids = Ids(); k = case['kind']
     if k == 'pair': return '(%s, %s)' % (coq_val(case['x'], ids), coq_val(case['y'], ids))
     if k == 'triple': return '(%s, %s, %s)' % (coq_val(case['x'], ids), coq_val(case['y'], ids), coq_val(case['z'], ids))
     if k == 'in': return '(%s, [%s])' % (coq_val(case['x'], ids), '; '.join(coq_val(v, ids) for v in case['seq']))
+    if k == 'veq': return '([%s], [%s])' % ('; '.join(coq_val(v, ids) for v in case['x'][3]), '; '.join(coq_val(v, ids) for v in case['y'][3]))
     raise ValueError(k)
 
 # ------------------------------------------------------------------ the structural rule of the property text (three-valued)
@@ -138,8 +146,8 @@ def scalar_key(s):
     t = s[0]
     if t == 'none': return ('none',)
     if t in ('bool', 'npbool'): return ('num', 2 * int(bool(s[1])))
-    if t in ('int', 'npint'): return ('num', 2 * s[1])
-    if t in ('float', 'npfloat'): return ('num', s[1])
+    if t in ('int', 'npint', 'npint32'): return ('num', 2 * s[1])
+    if t in ('float', 'npfloat', 'npf32'): return ('num', s[1])
     if t == 'inf': return ('inf', bool(s[1]))
     if t in ('str', 'npstr'): return ('str', s[1])
     if t in ('dt', 'ts', 'dt64'): return ('date', s[1])
@@ -157,7 +165,7 @@ def spec3(x, y, path='value'):
     if kx != ky:
         return (False, '%s: container types differ (%s vs %s)' % (path, kx, ky))
     if kx == 'scalar':
-        nx, ny = x[0] in ('nan', 'npnan'), y[0] in ('nan', 'npnan')
+        nx, ny = x[0] in NANS, y[0] in NANS
         if nx or ny:
             return (True, '') if nx and ny else (False, '%s: NaN vs non-NaN' % path)
         return (True, '') if scalar_key(x) == scalar_key(y) else (False, '%s: %s != %s' % (path, pyrepr(x), pyrepr(y)))
@@ -183,9 +191,10 @@ def spec3(x, y, path='value'):
 
 # ------------------------------------------------------------------ implementation side
 def impl_setup():
-    global np, pd, datetime, collections, eq, in_, Dict, FunnyDict, us2dt
+    global np, pd, datetime, collections, eq, in_, veq, Dict, FunnyDict, us2dt
     import numpy as np, pandas as pd, datetime, collections
     from pyg_base import eq, in_, Dict
+    from pyg_base._eq import veq
     from implutil import us2dt
     class FunnyDict(dict):
         pass
@@ -198,6 +207,9 @@ def build(s):
     if t == 'int': return int(s[1])
     if t == 'float': return s[1] / 2
     if t == 'npint': return np.int64(s[1])
+    if t == 'npint32': return np.int32(s[1])
+    if t == 'npf32': return np.float32(s[1] / 2)
+    if t == 'npf32nan': return np.float32('nan')
     if t == 'npfloat': return np.float64(s[1] / 2)
     if t == 'npbool': return np.bool_(bool(s[1]))
     if t == 'nan': return float('nan')
@@ -262,7 +274,10 @@ def impl(case):
     if k == 'pair':
         x = build(case['x']); y = x if case.get('same') else build(case['y'])
         px, py = pyrepr(case['x']), pyrepr(case['y'])
-        o1 = observe(eq, x, y); o2 = observe(eq, y, x)
+        if case.get('kw'):
+            o1 = observe(lambda: eq(x=x, y=y)); o2 = observe(lambda: eq(y=x, x=y))
+        else:
+            o1 = observe(eq, x, y); o2 = observe(eq, y, x)
         obs = [canon(o1), canon(o2)]
         viol = bad(o1, 'eq(%s, %s)' % (px, py)) or bad(o2, 'eq(%s, %s)' % (py, px))
         if viol is None and o1[1] != o2[1]:
@@ -284,6 +299,11 @@ def impl(case):
         return {'status': st, 'obs': [canon(i) for i in o], 'viol': viol}
     if k == 'in':
         x = build(case['x']); seq = [build(v) for v in case['seq']]
+        if case.get('seq_as') == 'tuple': seq = tuple(seq)
+        elif case.get('seq_as') == 'array' and seq:
+            a = np.empty(len(seq), dtype=object)
+            for i, v in enumerate(seq): a[i] = v
+            seq = a
         o = observe(in_, x, seq)
         viol = bad(o, 'in_(%s, [...])' % pyrepr(case['x']))
         if viol is None:
@@ -294,6 +314,21 @@ def impl(case):
             if viol is None and None not in exp and o[1] != any(exp):
                 viol = 'in_(%s, [%s]) = %s but membership up to eq is %s' % (pyrepr(case['x']), ', '.join(map(pyrepr, case['seq'])), o[1], any(exp))
         return {'status': 'ok' if o[0] != 'raise' else o[1], 'obs': canon(o), 'viol': viol}
+    if k == 'veq':
+        x, y = build(case['x']), build(case['y'])
+        try:
+            r = veq(x, y)
+            cells = [bool(b) for b in np.asarray(r).ravel()]
+            okshape = list(np.shape(r)) == case['x'][2]
+        except Exception as e:
+            return {'status': type(e).__name__, 'obs': ['ERR', type(e).__name__], 'viol': 'veq(%s, %s) raised %s' % (pyrepr(case['x']), pyrepr(case['y']), type(e).__name__)}
+        viol = None
+        exp = [spec3(a, b)[0] for a, b in zip(case['x'][3], case['y'][3])]
+        if not okshape:
+            viol = 'veq(%s, %s) has shape %s' % (pyrepr(case['x']), pyrepr(case['y']), np.shape(r))
+        elif any(e is not None and e != c for e, c in zip(exp, cells)):
+            viol = 'veq(%s, %s) = %s but cell by cell eq must give %s' % (pyrepr(case['x']), pyrepr(case['y']), cells, exp)
+        return {'status': 'ok', 'obs': cells, 'viol': viol}
     raise ValueError(k)
 
 def nontrivial(case, result):
@@ -334,7 +369,8 @@ def universe():
     U = []
     U += [['none'], ['bool', True], ['bool', False], I(0), I(1), I(2), I(-1), F(2), F(3), F(0), ['npint', 1], ['npfloat', 2], ['npfloat', 3],
           ['npbool', True], NAN, ['npnan'], ['inf', False], ['inf', True], S('a'), S('b'), S(''), S('1'), ['npstr', 'a'],
-          ['dt', D1], ['dt', D2], ['ts', D1], ['dt64', D1]]
+          ['dt', D1], ['dt', D2], ['ts', D1], ['dt64', D1], ['dt', D3], ['ts', D3], ['dt64', D3], ['dt', DOLD], ['dt64', DOLD], ['ts', DFUT], ['dt', DFUT],
+          ['npint32', 1], ['npf32', 3], ['npf32', 2], ['npf32nan'], I(2 ** 40 + 1), F(2 ** 41 + 2), S('\u00e9'), S('x' * 120), ['inf', False]]
     U += [L(), T(), D([]), D([], 'Dict'), D([], 'FunnyDict'), L(I(1)), T(I(1)), L(I(1), I(2)), T(I(1), I(2)), L(F(2)), L(NAN), T(NAN), L(S('a')),
           L(L(I(1))), L(T(I(1))), L(L(I(1), I(2)), L(I(3))), L(['none']), L(I(1), I(1), I(1)), T(['dt', D1]), L(['ts', D1])]
     U += [D([('a', I(1))]), D([('a', F(2))]), D([('a', I(1))], 'Dict'), D([('a', I(1))], 'FunnyDict'), D([('a', I(1))], 'OrderedDict'),
@@ -348,6 +384,8 @@ def universe():
           D([('a', NONE), ('b', I(1))]), D([('a', NONE)], 'Dict'), D([('b', NONE)], 'Dict'), D([('a', NONE)], 'FunnyDict'), D([('b', NONE)], 'FunnyDict'),
           D([('x', D([('a', NONE)]))]), D([('x', D([('b', NONE)]))]), L(D([('a', NONE)])), L(D([('b', NONE)])),
           D([('a', NONE), ('b', NONE)]), D([('c', NONE), ('d', NONE)]), D([('a', NONE), ('d', NONE)])]
+    U += [A('int', [2, 1, 2], [I(1), I(2), I(3), I(4)]), A('int', [1, 2, 2], [I(1), I(2), I(3), I(4)]), A('float', [2, 2, 1], [F(2), F(4), F(6), NAN]),
+          L(['npf32nan']), D([('a', ['npf32nan'])]), A('object', [1], [['npf32nan']])]
     U += [A('int', [1], [I(1)]), A('int', [1, 1], [I(1)]), A('int', [], [I(1)]), A('int', [2], [I(1), I(2)]), A('int', [1, 2], [I(1), I(2)]),
           A('int', [2, 1], [I(1), I(2)]), A('int', [3], [I(1), I(1), I(1)]), A('float', [1], [F(2)]), A('float', [2], [F(2), NAN]), A('float', [2], [F(2), F(4)]),
           A('float', [2], [F(3), F(4)]), A('float', [], [NAN]), A('float', [], [F(2)]), A('bool', [1], [['bool', True]]), A('str', [1], [S('a')]), A('str', [2], [S('a'), S('b')]),
@@ -366,7 +404,8 @@ def universe():
           FR('int', [['ts', D1], ['ts', D2]], [S('a')], [I(1), I(2)]), FR('object', [I(0)], [S('a'), S('b')], [I(1), S('x')])]
     return U
 
-SC_POOL = [['none'], ['bool', True], I(0), I(1), I(2), I(-3), F(2), F(3), F(5), ['npint', 1], ['npint', 2], ['npfloat', 2], NAN, ['npnan'], ['inf', False],
+SC_POOL = [['none'], ['bool', True], I(0), I(1), I(2), I(-3), F(2), F(3), F(5), ['npint', 1], ['npint', 2], ['npfloat', 2], NAN, ['npnan'], ['inf', False], ['inf', True],
+           ['npint32', 2], ['npf32', 3], ['npf32nan'], ['dt', D3], ['ts', DFUT], ['dt64', DOLD], I(2 ** 40 + 1),
            S('a'), S('b'), S('ab'), ['npstr', 'a'], ['dt', D1], ['ts', D1], ['dt64', D2], ['dt', D2]]
 KEYS = ['a', 'b', 'c', 'ab', 'B', 'a1', 'z']
 
@@ -414,18 +453,19 @@ def rand_val(rng, depth):
 
 def conv_cell(c, dtype):
     """the same number as a cell of another dtype"""
-    if dtype == 'float' and c[0] in ('int', 'npint'): return F(2 * c[1])
+    if dtype == 'float' and c[0] in ('int', 'npint', 'npint32'): return F(2 * c[1])
     if dtype == 'float' and c[0] in ('bool',): return F(2 * int(c[1]))
     return c
 
 def variant(rng, s):
     """a value that must still be eq to s: representation changes only"""
     t = s[0]
-    if t in ('int', 'npint'):
-        return rng.choice([I(s[1]), ['npint', s[1]], F(2 * s[1]), ['npfloat', 2 * s[1]]] + ([['bool', bool(s[1])]] if s[1] in (0, 1) else []))
-    if t in ('float', 'npfloat'):
-        return rng.choice([F(s[1]), ['npfloat', s[1]]] + ([I(s[1] // 2)] if s[1] % 2 == 0 else []))
-    if t in ('nan', 'npnan'): return rng.choice([NAN, ['npnan']])
+    if t in ('int', 'npint', 'npint32'):
+        small = [['npint32', s[1]], ['npf32', 2 * s[1]]] if abs(s[1]) < 2 ** 20 else []
+        return rng.choice([I(s[1]), ['npint', s[1]], F(2 * s[1]), ['npfloat', 2 * s[1]]] + small + ([['bool', bool(s[1])]] if s[1] in (0, 1) else []))
+    if t in ('float', 'npfloat', 'npf32'):
+        return rng.choice([F(s[1]), ['npfloat', s[1]]] + ([['npf32', s[1]]] if abs(s[1]) < 2 ** 20 else []) + ([I(s[1] // 2)] if s[1] % 2 == 0 else []))
+    if t in NANS: return rng.choice([NAN, ['npnan'], ['npf32nan']])
     if t in ('str', 'npstr'): return rng.choice([S(s[1]), ['npstr', s[1]]])
     if t in ('dt', 'ts', 'dt64'): return [rng.choice(['dt', 'ts', 'dt64']), s[1]]
     if t in ('list', 'tuple'): return [t, [variant(rng, v) for v in s[1]]]
@@ -447,9 +487,9 @@ def variant(rng, s):
 
 def mutate_scalar(rng, s):
     t = s[0]
-    if t in ('int', 'npint'): return [t, s[1] + rng.choice([1, -1])]
-    if t in ('float', 'npfloat'): return [t, s[1] + rng.choice([1, 2, -1])]
-    if t in ('nan', 'npnan'): return rng.choice([F(2), ['none'], ['inf', False]])
+    if t in ('int', 'npint', 'npint32'): return [t, s[1] + rng.choice([1, -1])]
+    if t in ('float', 'npfloat', 'npf32'): return [t, s[1] + rng.choice([1, 2, -1])]
+    if t in NANS: return rng.choice([F(2), ['none'], ['inf', False]])
     if t in ('str', 'npstr'): return [t, s[1] + 'x']
     if t in ('dt', 'ts', 'dt64'): return [t, s[1] + 1000000]
     if t == 'none': return rng.choice([I(0), NAN, S('None')])
@@ -528,6 +568,14 @@ def none_key_pair(rng, depth=2):
         else: x, y = A('object', [1], [x]), A('object', [1], [y])
     return x, y
 
+def big_values():
+    """sizes > 100: long list / tuple, wide dict (keys k0..k119: 'k10' < 'k2' in sort order), long and 2-d arrays, long Series, tall frame"""
+    n = 150
+    return [L(*[I(i) for i in range(n)]), T(*[I(i) for i in range(n)]), D([('k%d' % i, I(i)) for i in range(120)]),
+            A('int', [300], [I(i % 7) for i in range(300)]), A('float', [12, 12], [F(i) if i % 11 else NAN for i in range(144)]),
+            SR('float', [I(i) for i in range(200)], [F(i) if i % 13 else NAN for i in range(200)]),
+            FR('float', [I(i) for i in range(60)], [S('a'), S('b'), S('c')], [F(i) if i % 17 else NAN for i in range(180)])]
+
 def gen_cases(rng, tier):
     U = universe()
     cases = []
@@ -535,12 +583,22 @@ def gen_cases(rng, tier):
         cases.append({'kind': 'pair', 'x': U[i], 'y': U[i], 'same': True})
         for j in range(i, len(U)):
             cases.append({'kind': 'pair', 'x': U[i], 'y': U[j]})
+    B = big_values()
+    for i, b in enumerate(B):
+        cases.append({'kind': 'pair', 'x': b, 'y': b, 'same': True})
+        cases.append({'kind': 'pair', 'x': b, 'y': b, 'kw': True})
+        cases.append({'kind': 'pair', 'x': b, 'y': variant(rng, b)})
+        for _ in range(3):
+            cases.append({'kind': 'pair', 'x': b, 'y': mutant(rng, b)})
+        cases.append({'kind': 'pair', 'x': b, 'y': B[(i + 1) % len(B)]})
+        cases.append({'kind': 'triple', 'x': b, 'y': variant(rng, b), 'z': variant(rng, b)})
+        cases.append({'kind': 'in', 'x': b, 'seq': [U[3], mutant(rng, b), variant(rng, b)], 'seq_as': 'tuple'})
     n = 500 if tier == 'quick' else 8000
     for _ in range(n):
         x = rand_val(rng, rng.choice([1, 2, 2, 3, 3]))
         r = rng.random()
         y = variant(rng, x) if r < 0.35 else mutant(rng, x) if r < 0.8 else mutant(rng, variant(rng, x))
-        cases.append({'kind': 'pair', 'x': x, 'y': y})
+        cases.append({'kind': 'pair', 'x': x, 'y': y, 'kw': rng.random() < 0.2})
     for _ in range(n // 4):
         cases.append({'kind': 'pair', 'x': rand_val(rng, 2), 'y': rand_val(rng, 2)})
     for _ in range(n // 3):
@@ -562,7 +620,17 @@ def gen_cases(rng, tier):
         r = rng.random()
         if r < 0.4: seq.insert(rng.randrange(len(seq) + 1), variant(rng, x))
         elif r < 0.7: seq.insert(rng.randrange(len(seq) + 1), mutant(rng, x))
-        cases.append({'kind': 'in', 'x': x, 'seq': seq})
+        cases.append({'kind': 'in', 'x': x, 'seq': seq, 'seq_as': rng.choice(['list', 'list', 'tuple', 'array'])})
+    for _ in range(n // 5):
+        x = rand_val(rng, 2)
+        while x[0] != 'arr' or not x[3]:
+            x = rand_val(rng, 2)
+        y = variant(rng, x) if rng.random() < 0.4 else mutant(rng, x)
+        if y[0] != 'arr' or y[2] != x[2]:
+            cells = [mutate_scalar(rng, c) if is_scalar(c) and rng.random() < 0.3 else c for c in x[3]]
+            if x[1] == 'float': cells = [c if c[0] in ('float', 'nan', 'inf') else F(7) for c in cells]
+            y = A(x[1], x[2], cells)
+        cases.append({'kind': 'veq', 'x': x, 'y': y})
     return cases
 
 LEVEL_TEXT = ('machine-checked Coq theorems (C14_*, by structural induction over every value of the nested value type: any depth, any size) that the '
